@@ -46,6 +46,19 @@ def value_of(R, mag, units):
     return float(mag) * float(f), dim, False
 
 
+def _float_range_risk(R, units, nit):
+    """pint multiplies the factors of a compound unit leaf by leaf; with Planck/atomic units raised to a total power above 2 the partial
+    products leave the float range (0 * inf = nan) although the final factor is representable: outside the domain of the float tiers."""
+    w = 0
+    for n, e in units.items():
+        r = R.resolve_spelling(n)
+        f = abs(float(r.factor)) if r.factor else 1.0
+        if r.tainted or not (1e-15 < f < 1e15):
+            if nit != "Fraction" or r.tainted:
+                w += abs(e)
+    return w > 2
+
+
 def _fr(v):
     """exponent as Fraction; float exponents (1/3 from to_reduced_units) are snapped to small rationals"""
     return Fraction(v).limit_denominator(1000) if isinstance(v, float) else Fraction(v)
@@ -144,6 +157,8 @@ def case_helper(case, col=None):
         if not isinstance(m, float) or m != m or math.isinf(m) or m == 0:
             raise Skip("uncertain_magnitude_needs_finite_nonzero")
         m = ufloat(m, abs(m) * 0.01)
+    if _float_range_risk(R, units, nit):
+        raise Skip("float_range")
     mk = lambda: ureg.Quantity(m, ureg.UnitsContainer(dict(units)))  # noqa: E731
     q = mk()
     v0, d0, exact0 = value_of(R, m, units)
@@ -188,6 +203,8 @@ def case_helper(case, col=None):
     if (repr(q.magnitude), dict(q._units)) != snapshot:
         raise Violation(f"helper_modified_input:{helper}", f"{m!r} {units}")
     ru = {k: _fr(v) for k, v in r._units.items()}
+    if _float_range_risk(R, ru, nit):
+        raise Skip("float_range")
     v1, d1, exact1 = value_of(R, r.magnitude, ru)
     if d1 != d0 and helper == "reduced" and nit != "Fraction" and all(abs(float(d1.get(k, 0)) - float(d0.get(k, 0))) < 1e-6 for k in set(d1) | set(d0)):
         raise Violation("reduced_units_inexact_exponent", f"to_reduced_units on {m!r} {units} ({nit}): result units {dict(r._units)} have dimension {d1}")
